@@ -1186,6 +1186,7 @@ class FullEngine(Engine):
                     q.st.write("elems", recv.ref, rest)
                     q.ghost = dict(q.ghost)
                     q.ghost["last_pop"] = (x, rest)
+                    q.env["$rest"] = VSeq(rest)          # ghost local: what remained after the last pop
                     out.append((q, VRef(x, recv.elem_cname, "obj" if recv.elem_cname else "opaque")))
                 return out
         if isinstance(recv, VSet):
